@@ -777,3 +777,36 @@ theorem C06_dog_constant {K : Type} [Field K] [LinearOrder K] [IsStrictOrderedRi
   have h := (C06_gaussian_filter_constant isZero hz .nearest ⟨by decide, by decide⟩ f c hc).2
   rw [((h e2 s2 lw2 (fun _ => 0) he2 hp2 q hq).1 (fun _ _ => rfl)),
     ((h e1 s1 lw1 (fun _ => 0) he1 hp1 q hq).1 (fun _ _ => rfl)), sub_self]
+
+/-- **C06 (`gaussian_filter` with scalar / sequence `sigma` and `order`).** `normalizeSeq` is `_normalize_sequence`: a scalar
+stands for the same value on every axis, a sequence (list or tuple) must have exactly one entry per axis and is then used as
+it is, any other length is the `ValueError`. Hence `gaussianFilterPy` — `gaussian_filter` from its Python arguments —
+is the fold of `C06_gaussian_filter_is_fold` with the weights `gaussWeights sigmas[axis] orders[axis]` on axis `axis`
+(per-axis sigmas AND per-axis orders), it raises exactly when one of the two sequences has the wrong length, and with two
+scalars every axis uses the same weights `gaussWeights sigma order`. -/
+theorem C06_gaussian_filter_tuple (dt : String) (m : Mode) (f : Img Float) :
+    (∀ {α : Type} (ndim : Nat) (v : α), normalizeSeq ndim (.scalar v) = some (List.replicate ndim v)) ∧
+    (∀ {α : Type} (ndim : Nat) (vs : List α), normalizeSeq ndim (.seq vs) = if vs.length = ndim then some vs else none) ∧
+    (∀ (ss : List Float) (os : List Nat), ss.length = f.shape.length → os.length = f.shape.length →
+      gaussianFilterPy dt m f (.seq ss) (.seq os) = some (gaussianFilterModel dt m f true ss os) ∧
+      gaussianFilterModel dt m f true ss os =
+        ((List.range f.shape.length).foldl (fun cur ax => gaussianPass (castTo dt) fIsZero m cur ax
+          ((gaussWeights (ss.getD ax 1.0) (os.getD ax 0)).map (castTo dt))) f).data.toList) ∧
+    (∀ (ss : List Float) (os : List Nat), ss.length ≠ f.shape.length ∨ os.length ≠ f.shape.length →
+      gaussianFilterPy dt m f (.seq ss) (.seq os) = none) ∧
+    (∀ (sigma : Float) (order : Nat),
+      gaussianFilterPy dt m f (.scalar sigma) (.scalar order) =
+        some (gaussianFilterModel dt m f true (List.replicate f.shape.length sigma) (List.replicate f.shape.length order)) ∧
+      ∀ ax, ax < f.shape.length → (List.replicate f.shape.length sigma).getD ax 1.0 = sigma ∧
+        (List.replicate f.shape.length order).getD ax 0 = order) := by
+  refine ⟨fun _ _ => rfl, fun _ _ => rfl, fun ss os hs ho => ⟨?_, rfl⟩, fun ss os h => ?_, fun sigma order => ⟨rfl, fun ax hax => ?_⟩⟩
+  · simp only [gaussianFilterPy, normalizeSeq, hs, ho, if_true]
+  · simp only [gaussianFilterPy, normalizeSeq]
+    rcases h with h | h
+    · by_cases ho : os.length = f.shape.length <;> simp [h, ho]
+    · simp [h]
+  · simp [List.getD_eq_getElem?_getD, hax]
+
+/-- non-vacuity: the three argument forms on a rank-2 array -/
+example : normalizeSeq 2 (.scalar (3 : Nat)) = some [3, 3] ∧ normalizeSeq 2 (.seq [1, 0]) = some [1, 0] ∧
+    normalizeSeq 2 (.seq [(1 : Nat)]) = none ∧ normalizeSeq (α := Nat) 0 (.seq []) = some [] := by decide
